@@ -8,6 +8,7 @@ import (
 	"go/token"
 	"go/types"
 	"sort"
+	"strings"
 
 	"golang.org/x/tools/go/ssa"
 )
@@ -179,6 +180,7 @@ func lockClassOf(v ssa.Value) *types.Var {
 type pendingRoleSet struct {
 	typ                           *types.Named
 	store, loadAndDelete, closing *ssa.Function
+	rangeFn                       *ssa.Function // the method that iterates the table (closing itself, or a callback-taking helper of it)
 	register                      *ssa.Function // the ClientConn method that registers a request (calls store)
 }
 
@@ -205,6 +207,22 @@ func getPendingRoles(p *Prog) *pendingRoleSet {
 	}
 	if pr.store == nil || pr.loadAndDelete == nil || pr.closing == nil {
 		fatalf("anchor: could not resolve the store / remove / notify-all methods of pendingRequests by role")
+	}
+	// the iteration may sit in a private helper that takes what to do with each entry as a
+	// callback: the notify-all role belongs to the method that supplies the callback
+	pr.rangeFn = pr.closing
+	for i := 0; i < 2; i++ {
+		hasCb := false
+		for _, par := range pr.closing.Params[1:] {
+			if _, ok := par.Type().Underlying().(*types.Signature); ok {
+				hasCb = true
+			}
+		}
+		sites, only := p.staticCallSites(pr.closing)
+		if !hasCb || !only || len(sites) != 1 || recvNamed(rootFn(sites[0].Parent())) != pr.typ {
+			break
+		}
+		pr.closing = rootFn(sites[0].Parent())
 	}
 	cc := p.Named("proxycore", "ClientConn")
 	for _, m := range p.methodsOf(cc) {
@@ -388,4 +406,38 @@ func isInt16Chan(t types.Type) bool {
 	}
 	b, ok := c.Elem().Underlying().(*types.Basic)
 	return ok && b.Kind() == types.Int16
+}
+
+// requireRecognisedDispatch: the rules about the client frame handler find "the arm that handles
+// message type T" in a type switch (or comma-ok type assertions) inside the handler and the
+// private helpers it is split into.  When the handler picks its code another way (for example a
+// table keyed by reflect.Type with unchecked assertions in the entries) the arms cannot be told
+// apart: the property is left without a verdict instead of being decided on a misreading.
+func requireRecognisedDispatch(p *Prog) {
+	cl := p.proxyClientType()
+	recv := p.methodOf(cl, "Receive")
+	if recv == nil {
+		fatalf("anchor: %s.Receive not found", cl.Obj().Name())
+	}
+	seen := map[string]bool{}
+	for _, f := range withCallees(p, recv, 3) {
+		if rootFn(f) != recv && !(recvNamed(rootFn(f)) == cl && onlyCalledFrom(p, rootFn(f), recv, 3)) {
+			continue
+		}
+		eachInstr(f, func(in ssa.Instruction) {
+			ta, ok := in.(*ssa.TypeAssert)
+			if !ok || !ta.CommaOk {
+				return
+			}
+			if n := namedOf(ta.AssertedType); n != nil && n.Obj().Pkg() != nil {
+				path := n.Obj().Pkg().Path()
+				if strings.HasSuffix(path, "/message") || path == pkgPath("codecs") {
+					seen[n.Obj().Name()] = true
+				}
+			}
+		})
+	}
+	if len(seen) < 5 {
+		fatalf("anchor: the dispatch of the client frame handler on the message type is not a type switch in %s.Receive or its private helpers (%d typed arms found): the arms cannot be identified", cl.Obj().Name(), len(seen))
+	}
 }
